@@ -24,11 +24,20 @@ CLAIMS = {
  'C05': dict(tech="TLA+ spec (Nlp objective) evaluated by TLC; scenarios replayed into rockit",
              text="exact prediction of the NLP objective for every subset of the objective-term catalogue x methods x grids x M, compared with opti.f at generic probes",
              ref="DESIGN.md section 4 C05"),
+ 'C07': dict(tech="TLA+ spec (Nlp!EvalW at every grid point; matrix-valued reads) evaluated by TLC; scenarios replayed into rockit, numeric read-back through OcpSolution on a stand-in solver result",
+             text="for scalar, column, row and 2x2 matrix expressions over vector/matrix states and parameters, on grids control / control- / integrator / integrator_roots and value(), TLC predicts every entry [i,r,c]; the harness compares symbolic ocp.sample/ocp.value at generic probes and numeric sol.sample/sol.value (OcpSolution fed with an evaluator at an arbitrary decision vector, so read-back is exercised away from optima), including array shapes",
+             ref="DESIGN.md section 4 C07"),
+ 'C11': dict(tech="TLC invariant FreeEqualsFixed on the spec + exact replay of free-horizon scenarios into rockit",
+             text="TLC checks on every scenario that the free-horizon prediction restricted to T=c, t0=c0 equals the fixed-horizon prediction (rows, slacks, objective, grid); the real free-horizon NLP is then compared exactly with that prediction for {T, t0, both} free x methods x grids (incl. localized T and FreeGrid), plus the row T>=0, value(T|t0|tf) and the starting value of T/t0",
+             ref="DESIGN.md section 4 C11"),
+ 'C14': dict(tech="TLA+ spec with scales (Nlp) evaluated by TLC; scenarios replayed into rockit",
+             text="for scale assignments on states, controls, algebraics, variables, state derivatives and constraints: d(physical)/d(solver variable) equals the declared scale for every ingredient, user rows and dynamics rows equal the physical residual/slack divided by the scale, objective, physical starting point (with guesses) and read-backs are those of the unscaled problem",
+             ref="DESIGN.md section 4 C14"),
  'C09': dict(tech="TLC model checking of Lifecycle.tla + TLC-generated API histories replayed into rockit, live NLP compared with a freshly written OCP",
-             text="histories over 14 public operations (exhaustive to depth 3/4, random to depth 12/16) are generated by TLC; after every call the parameter vector of the live NLP must equal that of a fresh OCP with the specification's declaration (value set before or after transcription, last value wins, other data untouched)",
+             text="(a) exact replay family over parameter kinds (global, per-interval, per-interval+final, 2x2 matrix-valued, horizon parameter): rows, parametric bounds, objective and sampled parameter values against the prediction computed with the values written in; (b) histories over 14 public operations (exhaustive to depth 3/4, random to depth 12/16) are generated by TLC; after every call the parameter vector of the live NLP must equal that of a fresh OCP with the specification's declaration (value set before or after transcription, last value wins, other data untouched)",
              ref="DESIGN.md section 4 C09"),
  'C10': dict(tech="TLC model checking of Lifecycle.tla + TLC-generated API histories replayed into rockit",
-             text="for every generated history the physical starting point of the live NLP equals that of a fresh OCP with the final guesses (guess before/after transcription, last call wins)",
+             text="(a) exact replay family: guess forms (constant, time expression, N / N+1 column arrays as DM and numpy, repeated calls, T/t0 guesses, algebraic guesses) x symbol kinds x {MS, SS, DC incl. helper states} x before/after transcription: physical start of every decision variable against StartOf(decl); (b) for every generated history the physical starting point of the live NLP equals that of a fresh OCP with the final guesses (guess before/after transcription, last call wins)",
              ref="DESIGN.md section 4 C10"),
  'C13': dict(tech="TLC model checking of Lifecycle.tla (cache-protocol invariants and action properties) + TLC-generated histories replayed into rockit with per-step state comparison",
              text="Lifecycle.tla models decl/live/tflag over 14 operations; TLC checks CacheCurrent, NeverRaises, QueriesIdempotent, DeclUntouched, SetValueLocal on all reachable states; every generated history is executed on the real object: outcome, is_transcribed, declared lists after each call, and at every transcribing call the live NLP (rows by call site, objective, parameters, start, grid, solver in effect) against a freshly written OCP",
@@ -40,8 +49,7 @@ CLAIMS = {
 NOTES = {
  'C02': "degrees with irrational nodes (radau d>=3, legendre d>=2) are not predicted numerically yet",
  'C06': "DensityGrid/DenseEdgesGrid node positions are not predicted (no closed form in rationals)",
- 'C09': "this round covers the history clauses (C09.b); exact routing of per-interval/matrix parameters is covered by the C01/C04/C05 families for the kinds they contain",
- 'C10': "this round covers the history clause (C10.f) for scalar state guesses",
+ 'C10': "array guesses for DirectCollocation helper states are not predicted (conservative reading, DESIGN 9.2)",
 }
 
 checks = []
